@@ -160,6 +160,21 @@ Proof. exact x_sessions_differ_noise. Qed.
 (* non-vacuity: the toy AEAD satisfies the laws; a replayed record gives an unforged tampered stream on
    which the receiver delivers the first batch once and then fails; an honest stream with a 70000-byte
    frame (two records) between two small batches, cut in three pieces, is decoded completely *)
+(* reflection: an endpoint never accepts one of ITS OWN records as the peer's, whatever the counters are (e.g. aligned
+   after a symmetric exchange) - provided its two directions use different keys and the idealised AEAD separates keys *)
+Theorem C18_reflection_rejected : forall key (seal : key -> N -> bytes -> bytes) open,
+  (forall k n c p, open k n c = Some p -> c = seal k n p) ->
+  (forall k n p k' n' p', seal k n p = seal k' n' p' -> k = k') ->
+  forall (c : cipher key) n pt, c_ek c <> c_dk c ->
+  forall p c', decrypt key open c (seal (c_ek c) n pt) <> DcOk p c'.
+Proof. exact reflection_rejected. Qed.
+(* the same key for both directions (CURVE: shared nonce prefix, counters starting at 1) accepts it *)
+Theorem C18_reflection_accepted_with_one_key_refuted : forall key (seal : key -> N -> bytes -> bytes) open,
+  (forall k n p, open k n (seal k n p) = Some p) -> (forall k n p, len (seal k n p) = len p + TAG) ->
+  forall (c : cipher key) pt, c_kind c = KCurve -> c_ek c = c_dk c -> ctr_ok (c_rn c) = true ->
+  decrypt key open c (seal (c_ek c) (c_rn c) pt) = DcOk pt (set_rn c (c_rn c + 1)).
+Proof. intros key seal open H1 H2. exact (reflection_accepted_with_one_key_refuted key seal open H1 H2). Qed.
+
 Example C18_example :
   ideal_aead toy_seal toy_open /\
   unforged N toy_seal ex_key (sealed 1 (all_chunks [ex_b0; ex_b1])) (ex_w0 ++ ex_w0) /\
